@@ -47,7 +47,8 @@ def cover_case(draw, tier):
         cover.append(sorted(chunk))
     order = draw(st.permutations(list(range(len(cover)))))
     cover = [[v + base for v in cover[i]] for i in order]
-    c = {"cover": cover, "seed": draw(st.integers(0, 2 ** 31))}
+    c = {"cover": cover, "seed": draw(st.integers(0, 2 ** 31)),
+         "id_type": draw(st.sampled_from(["int", "int", "int64", "int32"]))}
     if draw(st.integers(0, 3)) == 0:
         # history: the loader is first built on another cover with the same clique sizes (other vertex count /
         # numbering base), then given this cover through the public setter and re-tabulated
@@ -139,7 +140,12 @@ def check(case):
         classes.add("from_eecc")
     else:
         cover = [list(c) for c in case["cover"]]
-    verts = sorted({v for c in cover for v in c})
+    if case.get("id_type", "int") != "int":
+        import numpy as np
+        conv = getattr(np, case["id_type"])
+        cover = [[conv(v) for v in c] for c in cover]  # vertex ids taken from integer arrays
+        classes.add("numpy_vertex_ids")
+    verts = sorted({int(v) for c in cover for v in c})
     base = verts[0]
     V = len(verts)
     if verts != list(range(base, base + V)) or base not in (0, 1):
